@@ -1,16 +1,18 @@
+import sys, os
+sys.path.insert(0, os.path.join(os.path.dirname(os.path.dirname(os.path.abspath(__file__))), "mirse"))
 from common import *
-import kani_engine as K
 
 
 def run():
+    import kernelcheck, arithlemmas
     ev = Evidence("C11", "proof")
-    ev.cov["functions_encoded"] = ["<Value as VrlValueArithmetic>::{eq_lossy,try_gt,try_ge,try_lt,try_le} (src/compiler/value/arithmetic.rs), compiled by Kani from /repo's working tree"]
-    ev.cov["bounds"] = ["int x int: all i64 pairs (no bound)", "float x float: all non-NaN f64 pairs incl. +-inf, +-0 (no bound)",
-                        "int x float: all i64 x non-NaN f64", "bool/null: exhaustive"]
-    ev.cov["trusted_base"] = ["Kani 0.68.0 codegen + CBMC 6.11.0 + cadical", "harness-side oracle: native i64/f64 comparison operators",
-                              "rustc MIR -> goto translation"]
-    ev.assumptions = ["Value::Float never holds NaN (NotNan invariant, assumed on inputs)",
-                      "bytes/timestamp/container comparisons: see DESIGN.md §5 C11 (separate harnesses, bounded)"]
-    t = 240 if tier() == "quick" else 1800
-    viol, inconc, known = K.check_property("C11", ev, ["c11_"], timeout_s=t, jobs=8)
+    thorough = tier() == "thorough"
+    ev.cov["bounds"] = ["operands: every Value variant; Integer payload: all i64; Float payload: all non-NaN f64 (incl. +-inf, +-0); no loop, no unwinding",
+                        "string concatenation / repetition: only the operand selection and the repeat count (max(n,0)) are encoded; the byte copying is bytes-crate code (opaque)",
+                        "float %: remainder function uninterpreted on both sides (SMT-LIB has no fmod)"]
+    ev.cov["trusted_base"] = ["rustc nightly -Zunpretty=mir output", "MIR semantics + std/ordered_float models in lib/mirse/symex.py (NotNan::new/into_inner, Result::map/map_err)",
+                              "z3 FloatingPoint theory (cvc5 cross-check in the thorough tier)", "expected results: documented semantics written as z3 terms in lib/mirse/arithlemmas.py"]
+    ev.cov["checker_cmd"] = "python3-vt /verif/lib/check.py C11"
+    ev.assumptions = ["Value::Float never holds NaN (NotNan invariant)", "Bytes::len() <= isize::MAX"]
+    viol, inconc, known = kernelcheck.check("C11", ev, arithlemmas.obligations, arithlemmas.replayer, cvc5_cross=thorough, mutants=arithlemmas.mutants)
     return ev, viol, inconc, known
